@@ -35,6 +35,7 @@ cPathQId  == <<"/","q","/","{","i","d","}">>
 cNameS    == <<"S">>
 cNameT    == <<"T">>
 cNameR    == <<"R","0">>
+cNameR1   == <<"R","1">>
 cNameDot  == <<"a",".","b","_","c","-","1">>
 cNameSp   == <<"a"," ","b">>
 cNameDol  == <<"a","$">>
@@ -45,7 +46,7 @@ cPatOk    == <<"a","+">>
 cPatBad   == <<"(","a">>
 cExpr     == <<"{","$","r","e","q","u","e","s","t",".","b","o","d","y","#","/","u","}">>
 CharVocab == {cExt, cBogus, cDescr, cPathP, cPathQ, cPathNoSl, cPathId, cPathK, cPathIdK, cPathQId,
-              cNameS, cNameT, cNameR, cNameDot, cNameSp, cNameDol, cUrlPlain, cUrlVar, cUrlOpen, cPatOk, cPatBad, cExpr}
+              cNameS, cNameT, cNameR, cNameR1, cNameDot, cNameSp, cNameDol, cUrlPlain, cUrlVar, cUrlOpen, cPatOk, cPatBad, cExpr}
 
 (* constant table (evaluated once by TLC): the strings of the vocabulary with their characters *)
 VocabTab == {[s |-> Join(cs), cs |-> cs] : cs \in CharVocab}
@@ -430,11 +431,42 @@ Options  == SeqRange(OptOrder)
 AllowField(opt) == CASE opt = "AllowDesc" -> "description" [] opt = "AllowZzz" -> "zzz" [] OTHER -> ""
 AllowedBy(field, opts) == field # "" /\ \E opt \in opts : AllowField(opt) = field
 
-(* the i-th option set, i in 1..2^7: bit j-1 of i-1 selects OptOrder[j] *)
+(* Every switch has an option that moves it away from its default ("flip") and one that moves it back   *)
+(* ("reset"):  DisEx/EnEx  Disable/EnableExamplesValidation,  DisDef/EnDef  ...SchemaDefaultsValidation, *)
+(* DisPat/EnPat ...SchemaPatternValidation,  EnFmt/DisFmt  Enable/DisableSchemaFormatValidation,        *)
+(* Prohibit/AllowExt  Prohibit/AllowExtensionsWithRef.  Options are applied in the order given; the     *)
+(* contract: the LAST setting of each switch wins and no option touches another switch.  Eff(seq) is    *)
+(* the state a sequence leaves behind, named by the flip options in force (+ the allowed sibling fields).*)
+Switches == {<<"DisEx", "EnEx">>, <<"DisDef", "EnDef">>, <<"DisPat", "EnPat">>, <<"EnFmt", "DisFmt">>,
+             <<"Prohibit", "AllowExt">>}
+LastIdx(seq, o) == IF \E i \in DOMAIN seq : seq[i] = o
+                   THEN CHOOSE i \in DOMAIN seq : seq[i] = o /\ \A j \in DOMAIN seq : seq[j] = o => j <= i
+                   ELSE 0
+Eff(seq) == {sw[1] : sw \in {x \in Switches : LastIdx(seq, x[1]) > LastIdx(seq, x[2])}}
+            \cup {o \in SeqRange(seq) : AllowField(o) # ""}
+
+(* option sequences 1..2^7: the subsets of OptOrder in that order (bit j-1 of i-1 selects OptOrder[j]) *)
 Pow2(n) == IF n = 0 THEN 1 ELSE IF n = 1 THEN 2 ELSE IF n = 2 THEN 4 ELSE IF n = 3 THEN 8 ELSE IF n = 4 THEN 16
            ELSE IF n = 5 THEN 32 ELSE IF n = 6 THEN 64 ELSE 128
-NOptSets == Pow2(Len(OptOrder))
-OptSet(i) == {OptOrder[j] : j \in {jj \in DOMAIN OptOrder : ((i - 1) \div Pow2(jj - 1)) % 2 = 1}}
+NSubsets == Pow2(Len(OptOrder))
+SubsetSeq(i) == SelectSeq(OptOrder, LAMBDA o : \E j \in DOMAIN OptOrder :
+                                         OptOrder[j] = o /\ ((i - 1) \div Pow2(j - 1)) % 2 = 1)
+(* further sequences, with the reset options: each reset alone; flip then reset and reset then flip of  *)
+(* the same switch; flip of one switch followed by the reset of every other; flip, reset, flip           *)
+SwitchSeq == <<<<"DisEx", "EnEx">>, <<"DisDef", "EnDef">>, <<"DisPat", "EnPat">>, <<"EnFmt", "DisFmt">>,
+               <<"Prohibit", "AllowExt">>>>
+RECURSIVE Flatten(_)
+Flatten(ss) == IF ss = <<>> THEN <<>> ELSE Head(ss) \o Flatten(Tail(ss))
+ResetSeqs ==
+   [k \in 1..5 |-> <<SwitchSeq[k][2]>>]
+   \o [k \in 1..5 |-> <<SwitchSeq[k][1], SwitchSeq[k][2]>>]
+   \o [k \in 1..5 |-> <<SwitchSeq[k][2], SwitchSeq[k][1]>>]
+   \o [k \in 1..5 |-> <<SwitchSeq[k][1], SwitchSeq[k][2], SwitchSeq[k][1]>>]
+   \o Flatten([k \in 1..5 |-> SelectSeq([m \in 1..5 |-> <<SwitchSeq[k][1], SwitchSeq[m][2]>>],
+                                         LAMBDA q : q[2] # SwitchSeq[k][2])])
+NOptSets == NSubsets + Len(ResetSeqs)
+OptSeq(i) == IF i <= NSubsets THEN SubsetSeq(i) ELSE ResetSeqs[i - NSubsets]
+OptSet(i) == Eff(OptSeq(i))
 
 Enabled(v, opts) ==
    CASE v.rule \in {"example_mismatch", "examples_mismatch"} -> "DisEx" \notin opts
